@@ -49,6 +49,7 @@ THEOREMS = ["Readers.decode_encode_csep", "Readers.decode_encode_zmap", "Readers
             "Readers.decode_encode_horus_denorm", "Readers.decode_encode_ndk_sec60", "Readers.daysFromCivil_strictMono",
             "Readers.civil_roundtrip", "Readers.jma_float_path_exact", "Readers.decode_encode_jma_float",
             "Readers.decode_zmap_repeated", "Readers.decode_zmap_keeps_duplicates", "Readers.decode_csep_repeated",
+            "Readers.explicit_loader_wins", "Readers.default_loader_is_registered",
             # text level (Properties/C19_Text.lean): characters of the file -> tokens
             "ReaderText.text_lines_lf", "ReaderText.text_lines_crlf", "ReaderText.text_lines_no_final_newline",
             "ReaderText.ndk_groups_of_five", "ReaderText.ndk_line1_columns", "ReaderText.ndk_line1_layout",
@@ -80,7 +81,16 @@ RULE = ("per format, files of 1..60 records from random event lists: lon [-180,1
         "boundary record (leap day, roll-over, second 60, non-zero offset, sub-resolution fraction) or a repeated record; "
         "distinct by sha1 of the file text and the zone. Wave 4: every 7th random file has CRLF line ends; NDK lines 2-5 "
         "vary (event-name length, order of the B/S/M data types, CMT: 0/1/2, TRIHD/BOXHD, FREE/FIX/BDY, Q-/S-/O- stamps, "
-        "exponents 7..35, three scalar-moment layouts); every file also goes as bytes through the text-level model")
+        "exponents 7..35, three scalar-moment layouts); every file also goes as bytes through the text-level model. "
+        "Wave 5: every file is read through one of 12 (NDK: 18) entry points chosen from rng - load_catalog(type=), "
+        "load_catalog(loader=reader) with type at its default / another format's / the matching one, a user-written loader, "
+        "CSEPCatalog.load_catalog(loader=), the reader function itself, format='csep', a pathlib path, pass-through "
+        "kwargs, apply_filters with a vacuous filter (list and str), NDK from StringIO/BytesIO/open files/str/bytes data - "
+        "each once per format first; the epoch-0 instant and its neighbours (4%), zero-valued coordinates/depth/magnitude "
+        "(4% per field) and an all-zero record per format; JMA offsets incl. -09:30, -04:30, -00:30, -00:45, +12:45, "
+        "+-00:01; two (thorough: five) files with 65537..66236 records; 12 (150) scripted SESSIONS on 2-4 shared paths "
+        "(write / load via random entry point / overwrite with same-length content / caller edits a returned catalog); "
+        "public accessors (event_count, get_longitudes ... get_datetimes) must agree with the stored array")
 
 EPOCH = datetime.datetime(1970, 1, 1)
 FORMATS = ("csep-csv", "zmap", "jma-csv", "ingv_horus", "ndk")
@@ -161,6 +171,8 @@ def _repeat(rng, recs):
 
 def _coord(rng, lo, hi, decimals=None):
     k = rng.random()
+    if k > 0.96 and lo <= 0 <= hi:
+        return 0.0          # zero-valued field (Greenwich / equator / surface / magnitude 0)
     if k < 0.1 and (decimals is None or decimals >= 5):
         # within 1e-4 of zero (Greenwich meridian / equator, shallow depth): repr is in exponent notation
         x = rng.uniform(1.0, 9.999) * 10.0 ** -rng.randint(5, 12 if decimals is None else decimals)
@@ -184,6 +196,12 @@ def _is_leap(y):
 def _instant(rng, frac_digits):
     """a normalised instant (datetime with microseconds) in 1900..2200 and a flag 'boundary'"""
     boundary = rng.random() < 0.4
+    if rng.random() < 0.04:
+        # the epoch itself (origin_time 0 is falsy) and its neighbours
+        base = datetime.datetime(1970, 1, 1) + datetime.timedelta(seconds=rng.choice([0, 0, 0, 1, -1, 60, -60, 86400, -86400]))
+        us = rng.choice([0, 0, 0, 1000, 999000, 500]) if frac_digits else 0
+        us -= us % (10 ** (6 - frac_digits)) if frac_digits else 0
+        return base.replace(microsecond=us), True
     if boundary:
         y = rng.choice([1900, 1904, 1969, 1970, 1971, 1999, 2000, 2001, 2016, 2024, 2038, 2100, 2199, rng.randint(1900, 2199)])
         kind = rng.choice(["feb", "monthend", "yearend", "yearstart", "monthstart"])
@@ -280,7 +298,8 @@ def gen_zmap(rng, n):
     return dict(fmt="zmap", sep=sep, recs=_repeat(rng, recs))
 
 
-_OFFS = [0, 0, 9 * 60, 9 * 60, -12 * 60, 14 * 60, 5 * 60 + 30, 5 * 60 + 45, -(3 * 60 + 30), -8 * 60, 60, -60, 13 * 60, -11 * 60]
+_OFFS = [0, 0, 9 * 60, 9 * 60, -12 * 60, 14 * 60, 5 * 60 + 30, 5 * 60 + 45, -(3 * 60 + 30), -8 * 60, 60, -60, 13 * 60, -11 * 60,
+         -(9 * 60 + 30), -(4 * 60 + 30), -30, -45, 30, -(2 * 60 + 15), 12 * 60 + 45, -1, 1]
 
 
 def gen_jma(rng, n):
@@ -458,14 +477,122 @@ def build(spec):
     return text, f"{OP[fmt]} " + (";".join(mod) if mod else "-")
 
 
-def _loaded(path, fmt, zone=None):
-    import csep
+READER = {"csep-csv": "csep_ascii", "zmap": "zmap_ascii", "jma-csv": "jma_csv", "ingv_horus": "ingv_horus", "ndk": "ndk"}
+
+# every documented way of getting the events of a file (wave 5): `how` is part of the case, chosen from rng
+HOWS = ["type",                  # csep.load_catalog(path, type=fmt)
+        "loader",                # csep.load_catalog(path, loader=readers.X)            (type left at its default)
+        "loader+othertype",      # csep.load_catalog(path, type=<another text format>, loader=readers.X)
+        "loader+sametype",       # csep.load_catalog(path, type=fmt, loader=readers.X)
+        "custom-loader",         # csep.load_catalog(path, loader=<user function wrapping readers.X>)
+        "class",                 # CSEPCatalog.load_catalog(path, loader=readers.X)
+        "direct",                # readers.X(path) -> event tuples
+        "format-csep",           # csep.load_catalog(path, type=fmt, format='csep')
+        "pathlib",               # csep.load_catalog(pathlib.Path(path), type=fmt)
+        "kwargs",                # ..., name=..., compute_stats=False, region=None, metadata={}
+        "apply-filters",         # ..., apply_filters=True, filters=[a statement every event satisfies]
+        "apply-filters-str"]     # ..., apply_filters=True, filters='magnitude >= -1000'
+HOWS_NDK = ["ndk-stringio", "ndk-bytesio", "ndk-open-text", "ndk-open-binary", "ndk-text-data", "ndk-bytes-data"]
+AWAITING_DECISION = ["custom-type-string-with-loader"]   # load_catalog(f, type='mine', loader=fn): KeyError 'mine' (see notes); not exercised
+
+
+def _rows(a):
+    return [[int(r["origin_time"]), Fraction(float(r["latitude"])), Fraction(float(r["longitude"])),
+             Fraction(float(r["depth"])), Fraction(float(r["magnitude"]))] for r in a]
+
+
+def _accessors(c, rows):
+    """the public accessors must tell the same story as the stored array (None = fine, else what differs)"""
+    import numpy
+    n = len(rows)
+    if c.event_count != n or c.get_number_of_events() != n:
+        return f"event_count {c.event_count} / get_number_of_events {c.get_number_of_events()} for {n} stored events"
+    for name, col in (("get_epoch_times", 0), ("get_latitudes", 1), ("get_longitudes", 2), ("get_depths", 3), ("get_magnitudes", 4)):
+        v = numpy.asarray(getattr(c, name)())
+        if v.shape != (n,) or any(Fraction(float(x)) != r[col] for x, r in zip(v, rows)):
+            return f"{name}() differs from the stored column"
+    if n:
+        dts = c.get_datetimes()
+        k = 0 if n == 1 else n // 2
+        want = EPOCH + datetime.timedelta(milliseconds=rows[k][0])
+        if dts[k].replace(tzinfo=None) != want:
+            return f"get_datetimes()[{k}] = {dts[k]} for origin_time {rows[k][0]}"
+    return None
+
+
+def _loaded(path, fmt, zone=None, how="type", other=None):
+    """events of the file through the entry point `how`: list of [ms, lat, lon, depth, mag] or 'err:Class:text'"""
+    import csep, io, pathlib
+    from csep.utils import readers
+    from csep.core.catalogs import CSEPCatalog
+    rd = getattr(readers, READER[fmt], None)
     try:
         with local_zone(zone):
-            c = csep.load_catalog(path, type=fmt)
-        a = c.catalog
-        return [[int(r["origin_time"]), Fraction(float(r["latitude"])), Fraction(float(r["longitude"])),
-                 Fraction(float(r["depth"])), Fraction(float(r["magnitude"]))] for r in a]
+            if how == "type":
+                c = csep.load_catalog(path, type=fmt)
+            elif how == "loader":
+                c = csep.load_catalog(path, loader=rd)
+            elif how == "loader+othertype":
+                c = csep.load_catalog(path, type=other, loader=rd)
+            elif how == "loader+sametype":
+                c = csep.load_catalog(path, type=fmt, loader=rd)
+            elif how == "custom-loader":
+                calls = []
+                def mine(fname):
+                    calls.append(fname)
+                    return rd(fname)
+                c = csep.load_catalog(path, type=other or "csep-csv", loader=mine)
+                if len(calls) != 1:
+                    return f"err:LoaderNotUsed:the loader passed to load_catalog was called {len(calls)} times"
+            elif how == "class":
+                c = CSEPCatalog.load_catalog(path, loader=rd)
+            elif how == "format-csep":
+                c = csep.load_catalog(path, type=fmt, format="csep")
+            elif how == "pathlib":
+                c = csep.load_catalog(pathlib.Path(path), type=fmt)
+            elif how == "kwargs":
+                c = csep.load_catalog(path, type=fmt, name="cat-" + fmt, compute_stats=False, region=None, metadata={})
+                if c.name != "cat-" + fmt:
+                    return f"err:KwargLost:name={c.name!r}"
+            elif how == "apply-filters":
+                c = csep.load_catalog(path, type=fmt, apply_filters=True, filters=["magnitude >= -1000.0", "depth < 1e9"])
+            elif how == "apply-filters-str":
+                c = csep.load_catalog(path, type=fmt, apply_filters=True, filters="magnitude >= -1000.0")
+            else:
+                if how == "direct":
+                    ev = rd(path)
+                elif how == "ndk-stringio":
+                    ev = readers.ndk(io.StringIO(open(path, newline=None).read()))
+                elif how == "ndk-bytesio":
+                    ev = readers.ndk(io.BytesIO(open(path, "rb").read().replace(b"\r\n", b"\n")))
+                elif how == "ndk-open-text":
+                    with open(path) as fh:
+                        ev = readers.ndk(fh)
+                elif how == "ndk-open-binary":
+                    with open(path, "rb") as fh:
+                        ev = readers.ndk(io.BytesIO(fh.read().replace(b"\r\n", b"\n")))
+                elif how == "ndk-text-data":
+                    ev = readers.ndk(open(path, newline=None).read())
+                elif how == "ndk-bytes-data":
+                    ev = readers.ndk(open(path, "rb").read().replace(b"\r\n", b"\n"))
+                else:
+                    raise RuntimeError("unknown entry point " + how)
+                out = []
+                for t in ev:
+                    tm = t[1]
+                    if int(tm) != tm:
+                        return f"err:NonIntegerTime:{tm!r}"
+                    out.append([int(tm)] + [Fraction(float(x)) for x in t[2:6]])
+                    if len(t) != 6:
+                        return f"err:TupleLength:{len(t)}"
+                return out
+        if type(c).__name__ != "CSEPCatalog":
+            return "err:WrongClass:" + type(c).__name__
+        rows = _rows(c.catalog)
+        bad = _accessors(c, rows)
+        if bad:
+            return "err:Accessor:" + bad
+        return rows
     except Exception as e:
         return "err:" + type(e).__name__ + ":" + str(e)[:120]
 
@@ -494,9 +621,12 @@ class Ctx:
         shutil.rmtree(self.dir, ignore_errors=True)
 
 
-def check_case(ctx, spec, tag):
+def check_case(ctx, spec, tag, light=False):
     run = ctx.run
     fmt = spec["fmt"]
+    compact = spec
+    if spec.get("tile"):      # a long file described compactly: the base records repeated up to `tile` records
+        spec = dict(spec, recs=(spec["recs"] * (spec["tile"] // len(spec["recs"]) + 1))[:spec["tile"]])
     text, req = build(spec)
     ctx.k += 1
     path = os.path.join(ctx.dir, f"cat{ctx.k}." + {"csep-csv": "csv", "zmap": "dat", "jma-csv": "csv", "ingv_horus": "txt", "ndk": "ndk"}[fmt])
@@ -514,10 +644,11 @@ def check_case(ctx, spec, tag):
     if strip_nl:
         run.count("file-without-final-newline")
     zone = spec.get("tz")
-    case = dict(tag=tag, fmt=fmt, n=len(recs), sha1=sha, tz=zone, spec=spec)
-    small = dict(tag=tag, fmt=fmt, n=len(recs), sha1=sha, tz=zone, first=recs[0]["text"] if recs else None)
+    case = dict(tag=tag, fmt=fmt, n=len(recs), sha1=sha, tz=zone, how=spec.get("how", "type"), spec=compact)
+    small = dict(tag=tag, fmt=fmt, n=len(recs), sha1=sha, tz=zone, how=spec.get("how", "type"),
+                 first=recs[0]["text"] if recs else None)
     n_rep = len(recs) - len({json.dumps(r["text"]) for r in recs})
-    run.case(small, f"{sha}|{zone}" if n_rep or any(r.get("boundary") for r in recs) else None)
+    run.case(small, f"{sha}|{zone}|{spec.get('how', 'type')}" if n_rep or any(r.get("boundary") for r in recs) else None)
     run.count(fmt)
     run.count("tz:" + str(zone))
     if n_rep:
@@ -527,7 +658,9 @@ def check_case(ctx, spec, tag):
             run.count("horus-denorm-" + r["denorm"])
         if r.get("sec60"):
             run.count("ndk-sec60")
-    got = _loaded(path, fmt, zone)
+    how = spec.get("how", "type")
+    run.count("entry:" + how)
+    got = _loaded(path, fmt, zone, how, spec.get("other"))
     os.unlink(path)
     want = [[int(r["exp"][0])] + [Fraction(float(x)) for x in r["exp"][1:]] for r in recs]
     # direct oracle: one event per record, in order, fields as encoded
@@ -548,6 +681,11 @@ def check_case(ctx, spec, tag):
                 break
     # text-level model (Model/ReaderText.lean): the characters of the file as written, through line splitting, field
     # splitting / fixed columns, decimal numerals -> float64, strptime matching, then the token model
+    if light:
+        # a long file: the text model runs in its own driver process with an unlimited stack (its line / character
+        # recursions are not tail calls); if even that is exhausted the comparison is skipped and said so
+        _compare_text_model(ctx, case, got, _big_text_model(fmt, written), [bool(r.get("tie")) for r in recs])
+        return
     t = ctx.drv.ask(f"c19_text {fmt} {written.encode('latin-1').hex()}")
     if fmt == "jma-csv":
         j = ctx.drv.ask(req)                                  # exact model (what the theorems are about)
@@ -556,6 +694,19 @@ def check_case(ctx, spec, tag):
     else:
         i = ctx.drv.ask(req)
         ctx.pending.append((case, i, got, None, None, t))
+
+
+def _big_text_model(fmt, written):
+    import resource, subprocess
+    from .core import DRIVER
+    def lim():
+        resource.setrlimit(resource.RLIMIT_STACK, (resource.RLIM_INFINITY, resource.RLIM_INFINITY))
+    try:
+        p = subprocess.run([DRIVER], input=f"c19_text {fmt} {written.encode('latin-1').hex()}\n", stdout=subprocess.PIPE,
+                           stderr=subprocess.PIPE, text=True, preexec_fn=lim)
+    except Exception:
+        return "outside"
+    return p.stdout.strip() if p.returncode == 0 and p.stdout.strip() else "outside"
 
 
 def _parse_events(m):
@@ -590,9 +741,11 @@ def _compare_text_model(ctx, case, got, m, ties):
 def flush(ctx):
     out = ctx.drv.run()
     for case, i, got, j, ties, t in ctx.pending:
-        m = out[i]
         fmt = case["fmt"]
         _compare_text_model(ctx, case, got, out[t], ties)
+        if i is None:
+            continue
+        m = out[i]
         if j is not None and out[j] != m:
             # the exact-rounding model and the float path may differ only on exact half-millisecond ties
             a = [p.split("~")[0] for p in out[j][3:].split(";")]
@@ -690,6 +843,42 @@ def check_tables(run, drv_tables):
         pass
     except Exception as e:
         run.count("unknown-type-raises-" + type(e).__name__)
+
+
+def check_selection(run):
+    """reader selection of load_catalog(type=t, loader=f) vs `Readers.selectLoader`: for every accepted text type a loader
+    passed by the caller must be the function that reads the file (observed through a loader that returns a sentinel
+    event; nothing inside csep is patched). The unknown-type-with-loader combination is in AWAITING_DECISION."""
+    import csep
+    d = tempfile.mkdtemp(prefix="verif_c19sel_")
+    try:
+        path = os.path.join(d, "any.txt")
+        with open(path, "w") as f:
+            f.write("this file is not in any catalog format\n")
+        drv, todo = Driver(), []
+        for t in list(FORMATS) + ["ingv_emrcmt"]:
+            calls = []
+            def sentinel(fname, _calls=calls):
+                _calls.append(fname)
+                return [("s", 123456789, 1.5, 2.5, 3.5, 4.5)]
+            try:
+                c = csep.load_catalog(path, type=t, loader=sentinel)
+                ev = _rows(c.catalog)
+                impl = f"{type(c).__name__}:custom" if (len(calls) == 1 and ev == [[123456789, Fraction(3, 2), Fraction(5, 2), Fraction(7, 2), Fraction(9, 2)]]) \
+                    else f"{type(c).__name__}:other-reader({len(calls)} calls of the passed loader)"
+            except Exception as e:
+                impl = f"{type(e).__name__}" + ("" if calls else ":passed-loader-not-called")
+            case = dict(tag="selection", type=t, loader="custom")
+            run.case(case, f"selection|{t}")
+            if impl != "CSEPCatalog:custom":
+                run.oracle_failure(case, f"load_catalog(fname, type={t!r}, loader=f) did not read the file with f: {impl}")
+            todo.append((case, impl, drv.ask(f"c19_select {t} custom")))
+        out = drv.run()
+        for case, impl, i in todo:
+            if out[i] != impl:
+                run.mismatch(case, impl, out[i])
+    finally:
+        shutil.rmtree(d, ignore_errors=True)
 
 
 def check_calendar(run, rng, ndays):
@@ -814,12 +1003,114 @@ def check_ndk_malformed(run, rng, n):
         shutil.rmtree(d, ignore_errors=True)
 
 
+def _zero_spec(fmt):
+    """one record with every value zero at the epoch: 1970-01-01T00:00:00(.0)(+0000), lon = lat = depth = magnitude = 0"""
+    exp = [0, "0.0", "0.0", "0.0", "0.0"]
+    z = _fr(0.0)
+    if fmt == "csep-csv":
+        rec = dict(text=["0.0", "0.0", "0.0", "1970-01-01T00:00:00.0", "0.0", "0", "0"], mod=[z, z, z, 1970, 1, 1, 0, 0, 0, 0, z], exp=exp)
+        return dict(fmt=fmt, header=True, recs=[rec, dict(rec, text=["0", "0", "0", "1970-01-01T00:00:00", "0", "", ""])])
+    if fmt == "zmap":
+        cols = ["0.0", "0.0", "1970", "1", "1", "0.0", "0.0", "0", "0", "0"]
+        return dict(fmt=fmt, sep=" ", recs=[dict(text=cols, mod=[_fr(c) for c in cols], exp=exp)])
+    if fmt == "jma-csv":
+        rec = dict(text=["1970-01-01T00:00:00.000+0000", "0.0", "0.0", "0.0", "0.0"], mod=[1970, 1, 1, 0, 0, 0, 0, 0, z, z, z, z], exp=exp)
+        return dict(fmt=fmt, header=False, recs=[rec, dict(rec, text=["1969-12-31T23:30:00.0-00:30", "0", "0", "0", "0"],
+                                                           mod=[1969, 12, 31, 23, 30, 0, 0, -1800, z, z, z, z])])
+    if fmt == "ingv_horus":
+        cols = ["1970", "1", "1", "0", "0", "0.0", "0.0", "0.0", "0.0", "0.0"]
+        return dict(fmt=fmt, layout="compact", recs=[dict(text=cols, mod=[1970, 1, 1, 0, 0, z, z, z, z, z], exp=exp)])
+    line1 = "PDE  1970/01/01 00:00:00.0   0.00    0.00   0.0 0.0 0.0 " + f"{'NOWHERE':<24}"
+    sm_t, expo = "  1.000", 16                                 # M0 = 1e9 N m  ->  Mw = 2/3 (9 - 9.1)
+    mw = 2.0 / 3.0 * (math.log10(float(sm_t) * (10 ** (expo - 7))) - 9.1)
+    lines = [line1, _NDK_T[0], _NDK_T[1], f"{expo:2d}" + _NDK_T[2], _NDK_T[3] + sm_t + _NDK_T[4]]
+    return dict(fmt=fmt, recs=[dict(text=lines, mod=[1970, 1, 1, 0, 0, 0, 0, z, z, z, _fr(mw)], exp=[0, "0.0", "0.0", "0.0", repr(mw)])])
+
+
+def gen_session(rng):
+    """script of a HISTORY on shared state: files of mixed formats at FIXED paths are written, loaded through random entry
+    points, re-loaded, OVERWRITTEN with other content of the same format (half of the time with the same number of records)
+    and loaded again; the caller changes a returned catalog in place in between"""
+    fmts = [rng.choice(FORMATS) for _ in range(rng.randint(2, 4))]
+    specs, script = [None] * len(fmts), []
+    for step in range(rng.randint(5, 9)):
+        j = rng.randrange(len(fmts))
+        if specs[j] is None or rng.random() < 0.35:
+            n = len(specs[j]["recs"]) if specs[j] and rng.random() < 0.5 else rng.randint(1, 6)
+            sp = GEN[fmts[j]](rng, n)
+            specs[j] = sp
+            script.append(dict(op="write", file=j, spec=sp))
+        script.append(dict(op="load", file=j, how=rng.choice(["type", "type", "loader", "class", "direct", "custom-loader", "format-csep"])))
+        if rng.random() < 0.3:
+            script.append(dict(op="edit-returned-catalog", file=j))
+    return dict(fmts=fmts, script=script)
+
+
+def run_session(ctx, sess, k):
+    """every load must give the events of what the file holds at that moment; loading may not change the file"""
+    run = ctx.run
+    d = tempfile.mkdtemp(prefix="verif_c19s_")
+    ext = {"csep-csv": "csv", "zmap": "dat", "jma-csv": "csv", "ingv_horus": "txt", "ndk": "ndk"}
+    fmts = sess["fmts"]
+    paths = [os.path.join(d, f"shared{j}." + ext[f]) for j, f in enumerate(fmts)]
+    cur, texts, history, kept = [None] * len(fmts), [None] * len(fmts), [], []
+    case = dict(tag="session", k=k, session=sess)
+    try:
+        for step, op in enumerate(sess["script"]):
+            j = op["file"]
+            fmt = fmts[j]
+            name = os.path.basename(paths[j])
+            if op["op"] == "write":
+                cur[j] = op["spec"]
+                texts[j], _ = build(cur[j])
+                with open(paths[j], "w", newline="") as fh:
+                    fh.write(texts[j])
+                history.append(f"write {name} ({len(cur[j]['recs'])} records)")
+                continue
+            if op["op"] == "edit-returned-catalog":
+                try:                                  # the caller edits a returned catalog in place; later loads must not see it
+                    import csep
+                    c = csep.load_catalog(paths[j], type=fmt)
+                    c.catalog["magnitude"][:] = -77.0
+                    c.catalog["origin_time"][:] = 1
+                    kept.append(c)
+                    history.append(f"caller overwrote the array of a catalog loaded from {name}")
+                except Exception as e:
+                    run.oracle_failure(case, f"{fmt}: loading {name} for the in-place edit raised {type(e).__name__}: {e}")
+                continue
+            how = op["how"]
+            got = _loaded(paths[j], fmt, None, how, "csep-csv")
+            history.append(f"load {name} via {how}")
+            recs = cur[j]["recs"]
+            want = [[int(r["exp"][0])] + [Fraction(float(x)) for x in r["exp"][1:]] for r in recs]
+            run.case(dict(tag="session", k=k, step=step, fmt=fmt, how=how), f"session|{k}|{step}|{fmt}|{how}")
+            run.count("session-step")
+            ok = not isinstance(got, str) and len(got) == len(want) and all(
+                (g[0] == w[0] or (r.get("tie") and abs(g[0] - w[0]) == 1)) and g[1:4] == w[1:4] and _mag_ok(fmt, g[4], w[4])
+                for g, w, r in zip(got, want, recs))
+            if not ok:
+                run.oracle_failure(case, f"{fmt}: after the history {history[-5:]} the file's {len(want)} record(s) loaded as "
+                                         f"{got if isinstance(got, str) else [_show(g) for g in got[:3]]}")
+                return
+            with open(paths[j], newline="") as fh:
+                if fh.read() != texts[j]:
+                    run.oracle_failure(case, f"{fmt}: loading changed the file on disk")
+                    return
+    finally:
+        shutil.rmtree(d, ignore_errors=True)
+
+
+def session(ctx, rng, k):
+    run_session(ctx, gen_session(rng), k)
+
+
 def run(run, rng, tier):
     ctx = Ctx(run)
     try:
         d = Driver()
         d.ask("c19_tables")
         check_tables(run, d.run()[0])
+        check_selection(run)
         check_calendar(run, rng, 3000 if tier == "quick" else 110000)
         check_float_text(run, rng, 4000 if tier == "quick" else 60000)
         check_ndk_malformed(run, rng, 60 if tier == "quick" else 600)
@@ -832,10 +1123,25 @@ def run(run, rng, tier):
         for fmt in FORMATS:
             for n in (1, 1, 2):                       # single-record files first (0-d array hazards)
                 check_case(ctx, GEN[fmt](rng, n), "small")
+            others = [f for f in FORMATS if f != fmt] + ["ingv_emrcmt"]
+            for how in HOWS + (HOWS_NDK if fmt == "ndk" else []):      # every entry point once per format, first
+                check_case(ctx, dict(GEN[fmt](rng, rng.choice([1, 2, 4])), how=how, other=rng.choice(others)), "entry")
+            check_case(ctx, _zero_spec(fmt), "all-zero-record")
             for k in range(per):
                 n = rng.choice([1, 2, 3, 5, 10, 20, 60, rng.randint(1, 60)])
-                check_case(ctx, dict(GEN[fmt](rng, n), tz=ZONES[k % len(ZONES)], eol="crlf" if k % 7 == 3 else "lf"), "random")
+                how = "type" if rng.random() < 0.5 else rng.choice(HOWS + (HOWS_NDK if fmt == "ndk" else []))
+                check_case(ctx, dict(GEN[fmt](rng, n), tz=ZONES[k % len(ZONES)], eol="crlf" if k % 7 == 3 else "lf",
+                                     how=how, other=rng.choice(others)), "random")
             flush(ctx)
+        big = list(FORMATS) if tier != "quick" else rng.sample(list(FORMATS), 2)
+        for fmt in big:                                   # more than 2^16 records (and not a multiple of 2^16)
+            base = GEN[fmt](rng, rng.randint(150, 300))
+            check_case(ctx, dict(base, tile=65536 + rng.randint(1, 700), how=rng.choice(["type", "loader", "direct"])),
+                       "more-than-2^16-records", light=True)
+            flush(ctx)
+        for k in range(12 if tier == "quick" else 150):
+            session(ctx, rng, k)
+        flush(ctx)
         run.extra["local_zones_effective"] = sorted(z for z, ok in _ZONE_OK.items() if ok)
         dead = sorted(z for z, ok in _ZONE_OK.items() if not ok)
         if dead:
@@ -850,6 +1156,10 @@ def replay(run, payload):
     try:
         if case.get("tag") == "tables":
             d = Driver(); d.ask("c19_tables"); check_tables(run, d.run()[0])
+        elif case.get("tag") == "selection":
+            check_selection(run)
+        elif case.get("tag") == "session":
+            run_session(ctx, case["session"], case.get("k", 0))
         else:
             check_case(ctx, case["spec"], "replay")
             flush(ctx)
